@@ -34,6 +34,8 @@ func TestVerif(t *testing.T) {
 		verifC08(t, r, out)
 	case "C09":
 		verifC09(t, r, out)
+	case "C10":
+		verifC10Group(t, r, out)
 	case "C12":
 		verifC12(t, r, out)
 	case "C18":
